@@ -144,6 +144,12 @@ COMBINATORS = [
     (r"^std::collections::hash_map::Entry::<.*>::or_insert$", HENTRY,
      {"Occupied": ("stdcall", "std::collections::hash_map::OccupiedEntry::into_mut", ["payload"]),
       "Vacant": ("stdcall", "std::collections::hash_map::VacantEntry::insert", ["payload", ("arg", 1)])}),
+    (r"^std::task::Poll::<std::result::Result<.*>>::map_ok$", POLL,
+     {"Ready": ("match", RES, {"Ok": ("wrap", POLL, "Ready", ("wrap", RES, "Ok", ("call", 1, "payload"))), "Err": ("wrap", POLL, "Ready", ("wrap", RES, "Err", ("payload",)))}),
+      "Pending": ("wrap", POLL, "Pending", None)}),
+    (r"^std::task::Poll::<std::result::Result<.*>>::map_err$", POLL,
+     {"Ready": ("match", RES, {"Ok": ("wrap", POLL, "Ready", ("wrap", RES, "Ok", ("payload",))), "Err": ("wrap", POLL, "Ready", ("wrap", RES, "Err", ("call", 1, "payload")))}),
+      "Pending": ("wrap", POLL, "Pending", None)}),
     (r"^<std::option::Option<.*> as std::ops::Try>::branch$", OPT, {"Some": ("wrap", CF, "Continue", ("payload",)), "None": ("wrap", CF, "Break", ("wrap", OPT, "None", None))}),
     (r"^<std::result::Result<.*> as std::ops::Try>::branch$", RES, {"Ok": ("wrap", CF, "Continue", ("payload",)), "Err": ("wrap", CF, "Break", ("wrap", RES, "Err", ("payload",)))}),
     (r"^<std::option::Option<.*> as std::ops::FromResidual<.*>>::from_residual$", None, ("wrap", OPT, "None", None)),
@@ -240,6 +246,9 @@ def _expand_combinator(facts, d, blocks, b, spec, level, stack_of):
             need.add(e[1])
         if e[0] == "wrap":
             closures_in(e[3])
+        if e[0] == "match":
+            for x in e[2].values():
+                closures_in(x)
         if e[0] == "stdcall":
             for a in e[2]:
                 if a != "payload":
@@ -271,6 +280,17 @@ def _expand_combinator(facts, d, blocks, b, spec, level, stack_of):
         kind = e[0]
         if kind == "payload":
             return new_block([{"k": "assign", "p": cont_place, "r": {"k": "use", "o": {"m": copy.deepcopy(payload)}}, "l": line}], {"k": "goto", "t": nxt, "l": line})
+        if kind == "match":
+            # nested test of the current payload: ("match", ADT, {variant: expr})
+            _, madt, marms = e
+            vs_ = VARIANTS[madt]
+            dtmp = new_local("isize")
+            ent = {}
+            for i_, v_ in enumerate(vs_):
+                pl2 = {"l": payload["l"], "p": list(payload["p"]) + [{"d": v_, "i": i_}, {"f": 0, "n": "0", "t": None}]}
+                ent[v_] = emit(marms[v_], pl2, cont_place, nxt)
+            st_ = {"k": "assign", "p": {"l": dtmp, "p": []}, "r": {"k": "discr", "p": copy.deepcopy(payload), "adt": madt, "vars": [[str(i_), v_] for i_, v_ in enumerate(vs_)]}, "l": line, "syn": "discr"}
+            return new_block([st_], {"k": "switch", "o": {"m": {"l": dtmp, "p": []}}, "oty": "isize", "ts": [["0", ent[vs_[0]]]], "else": ent[vs_[1]], "l": line, "syn": "comb"})
         if kind == "argfield":
             _, ai, vname, vidx = e
             base = args[ai].get("m") or args[ai].get("c")
